@@ -33,8 +33,14 @@ fn guarded<F: FnOnce() + std::panic::UnwindSafe>(f: F) -> bool {
 
 /// run the CLI binary in `cwd` with a watchdog; `Some(text)` if it hangs (killed after `secs`) or panics
 pub fn cli_watchdog(bin: &std::path::Path, cwd: &std::path::Path, args: &[&str], secs: u64) -> (Option<i32>, Option<String>) {
+    cli_watchdog_stdin(bin, cwd, args, secs, false)
+}
+
+/// `open_stdin`: txtpp's own stdin is a pipe that stays open (nothing is ever written to it) while it runs
+pub fn cli_watchdog_stdin(bin: &std::path::Path, cwd: &std::path::Path, args: &[&str], secs: u64, open_stdin: bool) -> (Option<i32>, Option<String>) {
     let mut c = std::process::Command::new(bin);
     c.current_dir(cwd).env_remove("TXTPP_FILE").args(args).stdout(std::process::Stdio::null()).stderr(std::process::Stdio::piped());
+    c.stdin(if open_stdin { std::process::Stdio::piped() } else { std::process::Stdio::null() });
     let Ok(mut child) = c.spawn() else { return (None, Some("cannot start the CLI binary".to_string())) };
     let t0 = std::time::Instant::now();
     let mut errpipe = child.stderr.take().unwrap();
@@ -99,6 +105,45 @@ fn big_scenarios(rep: &mut Report, bin: &std::path::Path, dir: &std::path::Path)
     }
     many_files_scenario(rep, bin, dir);
     non_utf8_names_scenario(rep, bin, dir, "C18");
+    // a command that reads its standard input while txtpp's own stdin is an open pipe: commands get no input (EOF at once)
+    {
+        let d = dir.join("stdin");
+        let _ = std::fs::remove_dir_all(&d);
+        std::fs::create_dir_all(&d).unwrap();
+        std::fs::write(d.join("in.txt.txtpp"), "before\n# TXTPP#run cat -; echo done\n# TXTPP#run wc -l\nafter\n").unwrap();
+        for f in [&["-q", "-j", "1", "."][..], &["verify", "-q", "."][..]] {
+            rep.count("big:command-reads-stdin-runs");
+            if let (_, Some(what)) = cli_watchdog_stdin(bin, &d, f, 20, true) {
+                rep.violation("oracle", &format!("C18: a command that reads stdin (`cat -`, `wc -l`) while txtpp's stdin is an open pipe: {what}"), &format!("# C18: {what}\n# source: `# TXTPP#run cat -; echo done` / `# TXTPP#run wc -l`; txtpp started with an open, silent pipe as stdin\n"));
+            }
+        }
+    }
+    // status lines with the progress display on: relative paths of 90..150 bytes made of two- and three-byte characters,
+    // every length (so that any byte offset a shortening might cut at falls inside a character for some of them)
+    {
+        let d = dir.join("longpaths");
+        let _ = std::fs::remove_dir_all(&d);
+        std::fs::create_dir_all(&d).unwrap();
+        let mut made = 0;
+        for extra in 0..12usize {
+            for unit in ["д", "名"] {
+                let dir1 = unit.repeat(18);
+                let dir2 = format!("{}{}", unit.repeat(16), "x".repeat(extra));
+                let p = d.join(&dir1).join(&dir2);
+                if std::fs::create_dir_all(&p).is_ok() {
+                    let _ = std::fs::write(p.join(format!("{}.txt.txtpp", unit.repeat(6))), "long path\n");
+                    made += 1;
+                }
+            }
+        }
+        rep.countn("big:long-multibyte-paths", made);
+        for f in [&["-r", "-j", "2", "."][..], &["-v", "-r", "-j", "1", "."][..], &["verify", "-r", "."][..], &["clean", "-r", "."][..]] {
+            rep.count("big:long-multibyte-path-runs");
+            if let (_, Some(what)) = cli_watchdog(bin, &d, f, 40) {
+                rep.violation("oracle", &format!("C18: progress display over relative paths of 90-150 bytes of multi-byte characters: {what}"), &format!("# C18: {what}\n# 24 sources below two directory levels named with 16-18 Cyrillic / CJK characters plus 0..11 ASCII characters\n"));
+            }
+        }
+    }
 }
 
 /// hundreds of files, every 7th failing: the error arrives while hundreds of tasks are outstanding; the run must end
